@@ -79,6 +79,7 @@ def _val(rng):
 
 class NexusMachine(Machine):
     name = "nexus"
+    no_return_cap = 20  # seconds of wall time; a run takes milliseconds
     properties = (PROP,)
 
     # ------------------------------------------------------------------ generation
@@ -90,7 +91,7 @@ class NexusMachine(Machine):
         n_init = sw.randint(3, 8 if tier == "quick" else 12)
         n_ops = sw.randint(4, 30 if tier == "quick" else 45)
         kinds = ["set", "read", "freeze", "unfreeze", "replace", "replace_child", "set_func", "setitem", "add_dep",
-                 "new_func", "new_param", "new_alias", "new_seq", "new_fallback", "new_binop", "value_dict", "drop", "arm", "cycle", "freeze_raw", "nx_replace", "nx_named"]
+                 "new_func", "new_param", "new_alias", "new_seq", "new_fallback", "new_binop", "value_dict", "drop", "arm", "cycle", "freeze_raw", "nx_replace", "nx_named", "nx_placeholder", "nx_fill"]
         weights = {}
         for k in kinds:
             weights[k] = sw.choice([0, 0, 1, 2, 4]) if k not in ("set", "read") else sw.choice([3, 6, 10])
@@ -103,6 +104,8 @@ class NexusMachine(Machine):
             weights["value_dict"] = 0
             weights["nx_replace"] = 0
             weights["nx_named"] = 0
+            weights["nx_placeholder"] = 0
+            weights["nx_fill"] = 0
         knobs = {
             "mode": mode,
             "order": sw.choice(["shuffle", "shuffle", "insertion", "reverse"]),
@@ -128,7 +131,13 @@ class NexusMachine(Machine):
             if g.apply(op):
                 ops.append(op)
                 if op[0] == "cycle":
-                    break
+                    if mode != "nexus":
+                        break
+                    # (Nexus.add_dependency rejects before touching the graph: the history goes on; what was evaluated stays evaluated)
+                    for _ in range(2):
+                        rd = g.propose("read", rng)
+                        if rd is not None and g.apply(rd):
+                            ops.append(rd)
         return {"machine": self.name, "seed": seed, "knobs": knobs, "ops": ops}
 
     # ------------------------------------------------------------------ execution
@@ -206,7 +215,7 @@ class GenState(object):
         if nid in self.alias_name:
             return self.alias_name[nid]
         n = self.g.nodes[nid]
-        return {"P": "p", "F": "f", "A": "a", "T": "t", "R": "r", "B": "b"}[n.kind] + str(nid)
+        return {"P": "p", "F": "f", "A": "a", "T": "t", "R": "r", "B": "b", "E": "e"}[n.kind] + str(nid)
 
     # -- proposal (uses rng; result is validated by apply)
     def propose(self, k, rng):
@@ -328,7 +337,13 @@ class GenState(object):
                 # choose b that (transitively) depends on a, so a->b closes a cycle
                 deps = [x for x in g.dependents(a) if g.nodes[x].alive]
                 if deps:
-                    return ["cycle", a, rng.choice(sorted(deps))]
+                    b = rng.choice(sorted(deps))
+                    if self.knobs["mode"] == "nexus" and rng.random() < 0.5:
+                        # a LIST of dependencies in which harmless entries precede the cycle-closing one: the whole call must be rejected
+                        ok = [x for x in self.ids() if x >= 0 and x != a and not g.reaches(x, a) and x not in g.nodes[a].params and x not in g.nodes[a].deps]
+                        if ok:
+                            return ["cycle", a, b, [rng.choice(ok) for _ in range(rng.randint(1, 2))]]
+                    return ["cycle", a, b]
             return None
         if k == "value_dict":
             return ["value_dict", rng.choice(["fail", "none", "ignore", "list", "exception_as_value"])]
@@ -351,6 +366,12 @@ class GenState(object):
                 key = rng.choice(["add", "mul", "neg", "sum3"])
                 return ["nx_named", nid, "func", key, [rng.choice(sc) for _ in LIB[key][0]]]
             return ["nx_named", nid, "alias", rng.choice(sc + sq)]
+        if k == "nx_placeholder":
+            # Nexus.add_function with a parameter name nobody has defined yet: kafe2 creates an Empty placeholder of that name
+            return ["nx_placeholder", nid, nid + 1, rng.choice(["neg", "inc", "absf"])]
+        if k == "nx_fill":
+            es = self.ids(lambda n: n.kind == "E")
+            return ["nx_fill", rng.choice(es), _val(rng)] if es else None
         if k == "drop":
             cand = self.ids(lambda n: not g.parents(n.id) and n.kind != "P")
             return ["drop", rng.choice(cand)] if cand else None
@@ -365,6 +386,11 @@ class GenState(object):
         k = op[0]
         if self.cycle_done:
             return False
+        if k in ("freeze", "freeze_raw", "unfreeze", "replace", "replace_child", "nx_replace", "drop", "setitem", "add_dep", "cycle"):
+            # (placeholders are only read, used as inputs of new nodes, and filled in)
+            for x in op[1:]:
+                if isinstance(x, int) and not isinstance(x, bool) and x in g.nodes and g.nodes[x].kind == "E":
+                    return False
         if k.startswith("new_"):
             nid = op[1]
             if nid in g.nodes:
@@ -522,7 +548,11 @@ class GenState(object):
                 return False
             if not g.reaches(b, a):
                 return False
-            self.cycle_done = True
+            for h in (op[3] if len(op) > 3 else []):
+                if not g.has(h) or h == a or g.reaches(h, a) or self.knobs["mode"] != "nexus" or h < 0 or self.registered.get(self.name_of(h)) != h:
+                    return False
+            if self.knobs["mode"] != "nexus":
+                self.cycle_done = True  # free-standing nodes: the edge is added before the check (nothing promises its removal): the run ends here
             return True
         if k == "value_dict":
             return self.knobs["mode"] == "nexus"
@@ -582,6 +612,28 @@ class GenState(object):
             g.nodes[nid] = n
             self.next_id = max(self.next_id, nid + 1)
             self.registered[self.name_of(nid)] = nid
+            return True
+        if k == "nx_placeholder":
+            nf, ne, key = op[1], op[2], op[3]
+            if self.knobs["mode"] != "nexus" or nf in g.nodes or ne in g.nodes or nf == ne or LIB.get(key, ("",))[0] != "s":
+                return False
+            e = RNode(ne, "E")
+            f = RNode(nf, "F")
+            f.fkey = ("lib", key)
+            f.params = [ne]
+            f.countable = True
+            g.nodes[ne] = e
+            g.nodes[nf] = f
+            self.alias_name[ne] = "e%d" % ne  # the placeholder keeps its name when it is filled in
+            self.next_id = max(self.next_id, nf + 1, ne + 1)
+            self.registered[self.name_of(ne)] = ne
+            self.registered[self.name_of(nf)] = nf
+            return True
+        if k == "nx_fill":
+            if self.knobs["mode"] != "nexus" or not g.has(op[1]) or g.nodes[op[1]].kind != "E":
+                return False
+            g.nodes[op[1]].kind = "P"
+            g.nodes[op[1]].value = float(op[2])
             return True
         if k == "drop":
             if not g.has(op[1]) or g.parents(op[1]) or g.nodes[op[1]].kind == "P":
@@ -691,7 +743,7 @@ class Exec(object):
         else:
             if got[0] == "ok":
                 self.viol("value", "noraise", "read of node %d returned %r, reference evaluation raises %s" % (nid, got[1], exp[1]), step, exp[1], got[1])
-            if got[1] != exp[1]:
+            if got[1] != exp[1] and got[1] not in g.failure_types(nid):
                 self.viol("value", "exctype", "read of node %d raised %s, reference raises %s" % (nid, got[1], exp[1]), step, exp[1], got[1])
         self.log.add([what, nid], got[0], got[1])
         if self._mut_since_read:
@@ -804,7 +856,11 @@ class Exec(object):
             raised = False
             try:
                 if self.nexus is not None:
-                    self.nexus.add_dependency(gs.name_of(op[1]), gs.name_of(op[2]))
+                    if len(op) > 3 and op[3]:
+                        self.res.probe("cycle_closing_entry_in_a_dependency_list")
+                        self.nexus.add_dependency(gs.name_of(op[1]), [gs.name_of(h) for h in op[3]] + [gs.name_of(op[2])])
+                    else:
+                        self.nexus.add_dependency(gs.name_of(op[1]), gs.name_of(op[2]))
                 else:
                     # free-standing nodes: the same two public steps add_dependency performs
                     R[op[1]].add_child(R[op[2]])
@@ -840,6 +896,21 @@ class Exec(object):
                 node = self.nexus.add_alias(gs.name_of(nid), alias_for=gs.name_of(op[3]))
             R[nid] = node
             self.dirty[nid] = True
+        elif k == "nx_placeholder":
+            nf, ne = op[1], op[2]
+            f = self.make_counted(op[3], nf)
+            node = self.nexus.add_function(f, func_name=gs.name_of(nf), par_names=[gs.name_of(ne)])
+            R[nf] = node
+            R[ne] = self.nexus.get(gs.name_of(ne))
+            self.dirty[nf] = True
+            self.dirty[ne] = True
+            self.res.probe("empty_placeholder_created")
+        elif k == "nx_fill":
+            p = nx.Parameter(float(op[2]), name=gs.name_of(op[1]))
+            self.nexus.add(p, existing_behavior="replace_if_empty")
+            R[op[1]] = p
+            self.mark_dirty(op[1])
+            self.res.probe("empty_placeholder_filled")
         elif k == "drop":
             node = R.pop(op[1])
             self.cnt.pop(op[1], None)
